@@ -370,6 +370,8 @@ class Folder:
             if attr not in menv or menv[attr] is TOP:
                 raise Unknown("attribute %s of %r" % (attr, v))
             return menv[attr]
+        if isinstance(v, ClassRef) and attr in ("__name__", "__qualname__"):
+            return v.name
         if isinstance(v, Opaque):
             raise Unknown("attribute %s of %r" % (attr, v))
         for ty, names in SAFE_METHODS.items():
@@ -377,6 +379,10 @@ class Folder:
                 return getattr(v, attr)
         if isinstance(v, type) and attr in SAFE_TYPE_ATTRS.get(v, ()):
             return getattr(v, attr)
+        if attr == "__class__" and isinstance(v, (str, bytes, int, float, bool, list, tuple, dict, set, frozenset, type(None), slice)):
+            return type(v)
+        if attr in ("__name__", "__qualname__") and isinstance(v, type):
+            return v.__name__
         raise Unknown("attr %s" % attr)
 
     def v_binop(self, op, l, r):
